@@ -5,7 +5,7 @@
     nothing held). *)
 From Coq Require Import List ZArith String Bool Arith Lia.
 From Thunder Require Import Lib.Json DiffMerge.Model Server.Model Server.Spec Server.Proofs Server.ProofsLife
-     Server.ProofsConv Server.ProofsC02 Server.ProofsC17 Server.Iface Server.Product.
+     Server.ProofsConv Server.ProofsC02 Server.ProofsC17 Server.Iface Server.Product Server.ProofsRuns.
 From Thunder Require Reactive.Graph Reactive.Rerunner Reactive.ProofsBase Reactive.ProofsMutex.
 From Thunder Require Props.C04 Props.C08.
 Import ListNotations.
@@ -677,4 +677,72 @@ Proof.
            destruct oc; [cbn in Fl; discriminate | | reflexivity].
            destruct (r_initial ru); [reflexivity|]. rewrite St in Fl. discriminate.
         -- apply Nat.eqb_neq in En. apply rx_ev_none. apply Iother; [apply in_seq0; exact Hr | congruence].
+Qed.
+
+(** * No computation of an ended subscription ever begins (the count of computations begun stays put) *)
+
+Lemma rrun_app a : forall b s, RR.run s (a ++ b) = match RR.run s a with Some s1 => RR.run s1 b | None => None end.
+Proof. induction a as [|l t IH]; intros b s; cbn [app RR.run]; [reflexivity|]. destruct (RR.step s l); [apply IH | reflexivity]. Qed.
+
+Lemma stop_seq_rrun rx r rx' : stop_seq rx r = Some rx' -> exists ls, RR.run rx ls = Some rx'.
+Proof.
+  unfold stop_seq. intros H.
+  destruct (RR.step rx (RR.LStop r)) as [s1|] eqn:E1; [|discriminate].
+  destruct (RR.step s1 (RR.LTask (RR.s_tid rx) 0)) as [s2|] eqn:E2; [|discriminate].
+  exists [RR.LStop r; RR.LTask (RR.s_tid rx) 0; RR.LTask (RR.s_tid rx) 0]. cbn [RR.run]. rewrite E1, E2, H. reflexivity.
+Qed.
+
+Lemma stop_all_rrun rs : forall rx rx', stop_all rx rs = Some rx' -> exists ls, RR.run rx ls = Some rx'.
+Proof.
+  induction rs as [|r t IH]; cbn; intros rx rx' H; [inversion H; subst; exists []; reflexivity|].
+  destruct (stop_seq rx r) as [rx1|] eqn:E; [|discriminate].
+  destruct (stop_seq_rrun _ _ _ E) as [l1 R1]. destruct (IH _ _ H) as [l2 R2].
+  exists (l1 ++ l2). rewrite rrun_app, R1. exact R2.
+Qed.
+
+Lemma pstep_rrun w sv rx pl sv' rx' : pstep w (sv, rx) pl = Some (sv', rx') -> exists ls, RR.run rx ls = Some rx'.
+Proof.
+  unfold pstep. destruct pl as [l|l o]; intros H.
+  - destruct (is_run_label l); [discriminate|].
+    destruct (step (w_cfg w) sv l) as [sv1|]; [|discriminate].
+    destruct (stop_all rx (newly_stopped sv sv1)) as [rx1|] eqn:E; [|discriminate].
+    destruct (_ && _); [|discriminate]. inversion H; subst. eapply stop_all_rrun; eassumption.
+  - destruct (is_stop_label l); [discriminate|].
+    destruct (RR.step rx l) as [rx1|] eqn:E; [|discriminate].
+    assert (R1 : exists ls, RR.run rx ls = Some rx1) by (exists [l]; cbn [RR.run]; rewrite E; reflexivity).
+    destruct (forallb _ _); [|discriminate].
+    destruct (events (pool w) rx rx1) as [|[r e] [|? ?]]; [destruct o; [discriminate|] | | destruct e; discriminate].
+    + inversion H; subst. exact R1.
+    + destruct e; try discriminate.
+      * destruct o; [discriminate|].
+        destruct (step (w_cfg w) sv (LRun r (OOk (w_render w r out)))); [|discriminate].
+        destruct (sub_live_in _ r); [|discriminate]. inversion H; subst. exact R1.
+      * destruct o as [oc|]; [|discriminate].
+        destruct (step (w_cfg w) sv (LRun r oc)); [|discriminate].
+        destruct (failed_in _ r); [|discriminate]. inversion H; subst. exact R1.
+Qed.
+
+Lemma prun_rrun w h : forall p p', prun w p h = Some p' -> exists ls, RR.run (snd p) ls = Some (snd p').
+Proof.
+  induction h as [|l t IH]; cbn; intros p p' H; [inversion H; subst; exists []; reflexivity|].
+  destruct (pstep w p l) as [p1|] eqn:E; [|discriminate]. destruct p as [sv rx], p1 as [sv1 rx1].
+  destruct (pstep_rrun _ _ _ _ _ _ E) as [l1 R1]. destruct (IH _ _ H) as [l2 R2].
+  exists (l1 ++ l2). cbn [snd] in *. rewrite rrun_app, R1. exact R2.
+Qed.
+
+(** [r_runs] counts the computations a rerunner has begun (BeginCompute of Rerunner.run: the call of the function
+    handleSubscribe / handleMutate gave to NewRerunner, i.e. of Execute and the resolvers).  After the end of a
+    subscription the count never moves again, whatever happens - data changes, timers, cancellations, any
+    schedule of the goroutines still around. *)
+Theorem no_computation_begins_after_end_l : forall w p h p' rid,
+  preachable w p -> stopped_in (fst p) rid = true -> prun w p h = Some p' ->
+  RR.r_runs (RR.getr (snd p') rid) = RR.r_runs (RR.getr (snd p) rid).
+Proof.
+  intros w p h p' rid R S H.
+  destruct (never_computes_after_end_l w p [] p rid R S eq_refl) as (St & _ & _ & _).
+  pose proof (preachable_Good _ _ R) as G.
+  unfold stopped_in in S. destruct (st_runners (fst p) rid) as [ru|] eqn:Er; [|discriminate].
+  pose proof (created_in_pool _ _ _ _ G Er) as Hp. pose proof (pool_length _ _ G) as L.
+  destruct (prun_rrun _ _ _ _ H) as [ls Rl].
+  eapply run_runs_stopped; [exact (g_rx _ _ G) | rewrite L; exact Hp | exact St | exact Rl].
 Qed.
